@@ -420,7 +420,13 @@ impl<'a> Gen<'a> {
                             vars.push(v);
                         }
                     }
-                    let kinds: Vec<Kind> = vars.iter().map(|v| sc.get(v).map(|i| i.kind).unwrap_or(if self.r.coin() { Kind::Ent } else { Kind::Num })).collect();
+                    // sometimes the graph variable of the GRAPH ?g blocks: it then arrives bound from
+                    // outside, also to names that are no visible graph
+                    if self.r.chance(1, 8) {
+                        vars[0] = "g".to_string();
+                        self.features.insert("graph_variable_bound_by_values".into());
+                    }
+                    let kinds: Vec<Kind> = vars.iter().map(|v| if v == "g" { Kind::Graph } else { sc.get(v).map(|i| i.kind).unwrap_or(if self.r.coin() { Kind::Ent } else { Kind::Num }) }).collect();
                     let nr = if self.r.chance(1, 15) { 0 } else { self.r.range(1, 3) };
                     let mut rows = vec![];
                     for _ in 0..nr {
@@ -429,7 +435,8 @@ impl<'a> Gen<'a> {
                             if self.r.chance(1, 5) {
                                 row.push(None);
                             } else {
-                                row.push(Some(self.const_of(*k)));
+                                let k = if *k == Kind::Graph && self.r.chance(1, 5) { Kind::Ent } else { *k };
+                                row.push(Some(self.const_of(k)));
                             }
                         }
                         rows.push(row);
